@@ -1,7 +1,222 @@
 import Yuiv.Proofs.C12
+import Yuiv.Proofs.C12Rings
+import Yuiv.Proofs.C12Schur
+import Yuiv.Proofs.C12UF
+/-
+C12 — sparse kernels (triangular solve, Schur complement, block splitting) are exact.
+
+Property theorems only; definitions and lemmas are in `Yuiv/Proofs/C12*.lean`, the code model in
+`Yuiv/Model/C12.lean` (the driver `yuivd_c12` runs exactly these definitions against the Rust code).
+
+Scalars: any commutative ring `R` whose model operations (`Scal R`: what the Rust code calls `+ - * neg
+is_zero inv`) are lawful (`LawfulScal R`); lawful instances are proved for `Int` (i64), core `Rat`
+(`Ratio<i64>`), `Fin 5` (`FF<5>`) and `GI` (`GaussInt<i64>`) in `Proofs/C12Rings.lean`.
+
+`UnitTriang upper A n u v` : `A` is n×n, every stored NON-ZERO entry lies on the right side (stored zeros
+anywhere), every column stores exactly one diagonal entry `u j`, and `inv (u j) = some (v j)`.
+`WFY Y n` : CSC well-formedness of a right-hand side (rows `< n`, no row stored twice in a column).
+-/
 namespace Yuiv.C12
-theorem placeholder_enumFrom_length {α : Type} (k : Nat) (l : List α) : (enumFrom k l).length = l.length := by
-  induction l generalizing k with
-  | nil => rfl
-  | cons a l ih => simp [enumFrom, ih]
+open Yuiv Matrix
+
+section solve
+variable {R : Type} [CommRing R] [Scal R] [LawfulScal R]
+variable {upper : Bool} {A : SpMat R} {n : Nat} {u v : Nat → R}
+
+/-- **solve_invariant.** Every run of the outer loop of `_solve_triangular` (any order `js` of pivots, any
+diagonal values, any buffer, no triangularity needed) preserves the quantity `A·x_partial + b`. -/
+theorem solve_invariant (A : SpMat R) (hA : WF A) (n : Nat) (hn : A.nrows = n)
+    (js : List (Nat × R)) (hjs : ∀ ju ∈ js, ju.1 < n) (b : Array R) (hb : b.size = n)
+    (es : List (Nat × R)) (b' : Array R) (es' : List (Nat × R))
+    (h : outer A b es js = .ok (b', es')) :
+    b'.size = n ∧ ∀ i, axAt A n es' i + bget b' i = axAt A n es i + bget b i :=
+  outer_invariant A hA n hn js hjs b hb es b' es' h
+
+/-- **solve_buffer_zero.** On a unit-triangular matrix `_solve_triangular` does not panic (`inv().unwrap()`,
+the `debug_assert!`, `from_sorted_entries`), leaves the scratch buffer ALL ZERO whatever it contained at
+entry, and returns `x` with `A·x = b` (`b` = buffer content at entry). -/
+theorem solve_buffer_zero (hA : UnitTriang upper A n u v) (b : Array R) (hb : b.size = n) :
+    ∃ es, solveBuf upper A (collectDiag A) b = .ok (zeroBuf n, es) ∧ (∀ e ∈ es, e.1 < n) ∧
+      ∀ i, axAt A n es i = bget b i :=
+  solveBuf_spec hA b hb
+
+/-- **parallel = sequential (history independence).** For ANY assignment of columns to worker buffers
+(`evs` = list of `(worker, column)` events, every worker owning one buffer that starts all-zero and is
+reused for all its columns) every column gets exactly the result a fresh zero buffer gives. -/
+theorem solve_schedule_independent (hA : UnitTriang upper A n u v) {Y : SpMat R} (hY : WFY Y n)
+    (evs : List (Nat × Nat)) :
+    runSched upper A (collectDiag A) Y (fun _ => zeroBuf n) evs =
+      .ok (evs.map fun wj => (wj.2, freshCol upper A Y n wj.2)) :=
+  runSched_spec hA hY evs _ (fun _ => rfl)
+
+/-- the sequential column loop (one buffer, any list of columns) is the special case of one worker, and it
+hands back a zero buffer -/
+theorem solve_cols_reused_buffer (hA : UnitTriang upper A n u v) {Y : SpMat R} (hY : WFY Y n) (js : List Nat) :
+    solveCols upper A (collectDiag A) Y (zeroBuf n) js = .ok (zeroBuf n, js.map (freshCol upper A Y n)) :=
+  solveCols_spec hA hY js
+
+/-- **A·X = Y.** `solve_triangular(t, a, y)` returns (no panic) the `n × k` matrix `X` whose `j`-th column is
+the fresh-buffer result, and `A·X = Y` as matrices over `R`. -/
+theorem solve_correct' (hA : UnitTriang upper A n u v) {Y : SpMat R} (hY : WFY Y n) :
+    ∃ X, solve upper A Y = .ok X ∧ X.nrows = n ∧ X.ncols = Y.ncols ∧ (∀ j, ∀ e ∈ col X j, e.1 < n) ∧
+      (∀ j, j < Y.ncols → col X j = freshCol upper A Y n j) ∧
+      toMatrix A n n * toMatrix X n Y.ncols = toMatrix Y n Y.ncols := by
+  obtain ⟨X, h1, h2, h3, h4, h5⟩ := solve_correct hA hY
+  refine ⟨X, h1, h2, h3, h4, fun j hj => ?_, h5⟩
+  rw [solve_eq hA hY] at h1
+  cases h1
+  exact col_mk _ _ _ _ hj
+
+/-- the hypotheses are satisfiable by a non-trivial value: an upper triangular 2×2 integer matrix with
+diagonal `1, -1`, a stored zero BELOW the diagonal, and a right-hand side with a stored zero -/
+example : ∃ (A Y : SpMat Int) (u v : Nat → Int), UnitTriang true A 2 u v ∧ WFY Y 2 := by
+  refine ⟨⟨2, 2, #[[(0, 1), (1, 0)], [(0, 2), (1, -1)]]⟩, ⟨2, 1, #[[(0, 1), (1, 3)]]⟩,
+    fun j => if j = 0 then 1 else -1, fun j => if j = 0 then 1 else -1, ?_, ?_⟩
+  · refine ⟨⟨rfl, ?_⟩, rfl, rfl, ?_, ?_, ?_⟩
+    · intro j e he
+      match j with
+      | 0 => simp [col] at he; rcases he with rfl | rfl <;> decide
+      | 1 => simp [col] at he; rcases he with rfl | rfl <;> decide
+      | j + 2 => simp [col] at he
+    · intro j hj e he hz
+      match j with
+      | 0 => simp [col] at he; rcases he with rfl | rfl <;> simp_all [Scal.isZero]
+      | 1 => simp [col] at he; rcases he with rfl | rfl <;> simp_all [Scal.isZero]
+    · intro j hj
+      match j with
+      | 0 => decide
+      | 1 => decide
+    · intro j hj
+      match j with
+      | 0 => decide
+      | 1 => decide
+  · refine ⟨rfl, rfl, ?_, ?_⟩
+    · intro j e he
+      match j with
+      | 0 => simp [col] at he; rcases he with rfl | rfl <;> decide
+      | j + 1 => simp [col] at he
+    · intro j
+      match j with
+      | 0 => decide
+      | j + 1 => simp [col]
+
+end solve
+
+/-! ### lawful scalar instances (the rings the harness exercises) -/
+
+theorem lawful_int : LawfulScal Int := inferInstance
+theorem lawful_rat : LawfulScal Rat := inferInstance
+theorem lawful_gauss : LawfulScal GI := inferInstance
+open Fin.CommRing in
+theorem lawful_f5 : LawfulScal (Fin 5) := inferInstance
+
+/-! ### Schur complement: block-matrix identities (any commutative ring, any finite block sizes) -/
+
+section schur
+variable {R : Type} [CommRing R]
+variable {r p q : Type} [Fintype r] [Fintype p] [Fintype q] [DecidableEq r] [DecidableEq p] [DecidableEq q]
+
+/-- **F_tgt · M · B_src = S** with `S = D − C·X`, for the maps the code assembles from `X` (`A·X = B`, by
+`solve_triangular`) and `W` (`W·A = C`, by `solve_triangular_left`). -/
+theorem schur_transfer_identity (A : Matrix r r R) (B : Matrix r q R) (C : Matrix p r R) (D : Matrix p q R)
+    (X : Matrix r q R) (W : Matrix p r R) (hX : A * X = B) (hW : W * A = C) :
+    fromCols (-W) (1 : Matrix p p R) * fromBlocks A B C D * fromRows (-X) (1 : Matrix q q R) = D - C * X :=
+  schur_transfer A B C D X W hX hW
+
+/-- **F·B = I** for both transfer maps -/
+theorem schur_transfer_FB_src (X : Matrix r q R) :
+    fromCols (0 : Matrix q r R) (1 : Matrix q q R) * fromRows (-X) (1 : Matrix q q R) = 1 := schur_src_id X
+theorem schur_transfer_FB_tgt (W : Matrix p r R) :
+    fromCols (-W) (1 : Matrix p p R) * fromRows (0 : Matrix r p R) (1 : Matrix p p R) = 1 := schur_tgt_id W
+
+/-- **S = D − C·A⁻¹·B** when `A` is invertible (`X` the solution of `A·X = B`) -/
+theorem schur_complement_inv (A : Matrix r r R) (B : Matrix r q R) (C : Matrix p r R) (D : Matrix p q R)
+    (X : Matrix r q R) (hA : IsUnit A.det) (hX : A * X = B) :
+    X = A⁻¹ * B ∧ D - C * X = D - C * A⁻¹ * B := schur_eq_inv A B C D X hA hX
+
+/-- a matrix with a right inverse (what `inv_triangular` returns) is invertible and that is its inverse -/
+theorem right_inverse_is_inverse (A Z : Matrix r r R) (h : A * Z = 1) : IsUnit A.det ∧ A⁻¹ = Z :=
+  isUnit_of_right_inv A Z h
+
+example : ∃ (A : Matrix (Fin 1) (Fin 1) ℤ) (X : Matrix (Fin 1) (Fin 2) ℤ), A * X = !![2, -3] ∧ IsUnit A.det :=
+  ⟨!![1], !![2, -3], by decide, by simp⟩
+
+end schur
+
+/-! ### union-find -/
+
+section uf
+open UF Relation
+
+/-- `p[i] ≤ i` holds initially and is preserved by `union`; `union` never panics on indices in range -/
+theorem uf_inv_new (n : Nat) : Good (UF.new n) n := new_good n
+theorem uf_inv_union {u : UF} {n : Nat} (hG : Good u n) (i j : Nat) (hi : i < n) (hj : j < n) :
+    ∃ u', UF.union u i j = .ok u' ∧ Good u' n := by
+  obtain ⟨u', _, _, h, hG', _⟩ := union_spec hG i j hi hj
+  exact ⟨u', h, hG'⟩
+
+/-- `root` terminates (the fuel of the model is never exhausted, i.e. the Rust recursion returns) and yields a
+fixed point not above `i` -/
+theorem uf_root_terminates {u : UF} {n : Nat} (hG : Good u n) (i : Nat) (hi : i < n) :
+    ∃ r, UF.root u i = .ok r ∧ IsRoot u.p i r ∧ r ≤ i := by
+  obtain ⟨r, h, hr⟩ := root_ok hG.inv i (by rw [hG.size]; exact hi)
+  exact ⟨r, h, hr, hr.le hG.inv⟩
+
+/-- **after any sequence of unions `is_same i j ↔` the equivalence closure of the united pairs** -/
+theorem uf_same_iff_closure (n : Nat) (es : List (Nat × Nat)) (hes : ∀ e ∈ es, e.1 < n ∧ e.2 < n)
+    (i j : Nat) (hi : i < n) (hj : j < n) :
+    ∃ u b, unions (UF.new n) es = .ok u ∧ UF.isSame u i j = .ok b ∧
+      (b = true ↔ EqvGen (fun a b => (a, b) ∈ es) i j) := by
+  obtain ⟨u, hu, hrep⟩ := unions_rep (new_rep n) es hes
+  have hrep' : Rep u n (fun a b => (a, b) ∈ es) := hrep.congr (by simp)
+  obtain ⟨b, hb, hiff⟩ := hrep'.isSame_iff i j hi hj
+  exact ⟨u, b, hu, hb, hiff⟩
+
+/-- every root is the MINIMUM of its class -/
+theorem uf_root_is_class_min (n : Nat) (es : List (Nat × Nat)) (hes : ∀ e ∈ es, e.1 < n ∧ e.2 < n)
+    (x : Nat) (hx : x < n) :
+    ∃ u r, unions (UF.new n) es = .ok u ∧ UF.root u x = .ok r ∧ r < n ∧
+      EqvGen (fun a b => (a, b) ∈ es) x r ∧ ∀ y, y < n → EqvGen (fun a b => (a, b) ∈ es) x y → r ≤ y := by
+  obtain ⟨u, hu, hrep⟩ := unions_rep (new_rep n) es hes
+  have hrep' : Rep u n (fun a b => (a, b) ∈ es) := hrep.congr (by simp)
+  obtain ⟨r, h, hr⟩ := root_ok hrep'.good.inv x (by rw [hrep'.good.size]; exact hx)
+  obtain ⟨a1, a2, a3⟩ := hrep'.root_min x hx r hr
+  exact ⟨u, r, hu, h, a1, a2, a3⟩
+
+/-- **the grouping is independent of the order (and multiplicity) in which the unions happen**: two union
+sequences generating the same equivalence give the same `root`, `is_same` and `group()` -/
+theorem uf_order_independent (n : Nat) (es es' : List (Nat × Nat))
+    (hes : ∀ e ∈ es, e.1 < n ∧ e.2 < n) (hes' : ∀ e ∈ es', e.1 < n ∧ e.2 < n)
+    (hsame : ∀ a b, EqvGen (fun a b => (a, b) ∈ es) a b ↔ EqvGen (fun a b => (a, b) ∈ es') a b) :
+    ∃ u u', unions (UF.new n) es = .ok u ∧ unions (UF.new n) es' = .ok u' ∧
+      UF.group u = UF.group u' ∧ (∀ x, x < n → UF.root u x = UF.root u' x) ∧
+      ∀ x y, x < n → y < n → UF.isSame u x y = UF.isSame u' x y := by
+  obtain ⟨u, hu, hrep⟩ := unions_rep (new_rep n) es hes
+  obtain ⟨u', hu', hrep'⟩ := unions_rep (new_rep n) es' hes'
+  have h1 : Rep u n (fun a b => (a, b) ∈ es) := hrep.congr (by simp)
+  have h2 : Rep u' n (fun a b => (a, b) ∈ es') := hrep'.congr (by simp)
+  exact ⟨u, u', hu, hu', group_determined h1 h2 hsame, fun x hx => root_determined h1 h2 hsame x hx,
+    fun x y hx hy => isSame_determined h1 h2 hsame x y hx hy⟩
+
+/-- in particular for a permutation of the union list (the mutex-protected unions of `group_cols` happen in
+an arbitrary order) -/
+theorem uf_perm_independent (n : Nat) (es es' : List (Nat × Nat)) (hp : es.Perm es')
+    (hes : ∀ e ∈ es, e.1 < n ∧ e.2 < n) :
+    ∃ u u', unions (UF.new n) es = .ok u ∧ unions (UF.new n) es' = .ok u' ∧ UF.group u = UF.group u' := by
+  obtain ⟨u, u', h1, h2, h3, _⟩ := uf_order_independent n es es' hes (fun e he => hes e (hp.mem_iff.2 he))
+    (fun a b => eqvGen_congr (fun a b => hp.mem_iff) a b)
+  exact ⟨u, u', h1, h2, h3⟩
+
+/-- `group()` lists the classes keyed by root (= class minimum) in ascending order, members ascending -/
+theorem uf_group_classes (n : Nat) (es : List (Nat × Nat)) (hes : ∀ e ∈ es, e.1 < n ∧ e.2 < n) :
+    ∃ u rt, unions (UF.new n) es = .ok u ∧ (∀ x, x < n → UF.root u x = .ok (rt x)) ∧
+      UF.group u = .ok (classesOf n rt) := by
+  obtain ⟨u, hu, hrep⟩ := unions_rep (new_rep n) es hes
+  obtain ⟨rt, h1, h2⟩ := hrep.group_eq
+  exact ⟨u, rt, hu, fun x hx => (h1 x hx).1, h2⟩
+
+example : unions (UF.new 4) [(0, 1), (2, 3), (1, 3)] = .ok ⟨#[0, 0, 0, 2]⟩ ∧
+    UF.group ⟨#[0, 0, 0, 2]⟩ = .ok [[0, 1, 2, 3]] := by decide +kernel
+
+end uf
 end Yuiv.C12
